@@ -800,7 +800,12 @@ static void cmd_dump(void) {
             int64_t total = 0; long calls = 0;
             const char* end = "OK";
             for (;;) {
-                int64_t n = cr_read("part ", slot, batch, 1, 1, 0);
+                /* never ask for more than one row beyond what the reader says is left: keeps the exact-size
+                 * buffers small when the caller passes a huge batch ("everything in one call") */
+                int64_t rem = carquet_column_remaining(G.cr[slot].cr);
+                int64_t k = batch;
+                if (rem >= 0 && rem + 1 < k) k = rem + 1;
+                int64_t n = cr_read("part ", slot, k, 1, 1, 0);
                 putchar('\n');
                 calls++;
                 if (n < 0) { end = "ERR"; break; }
